@@ -672,8 +672,8 @@ def plan(tier):
             {"part": "imports", "shards": 8, "budget": {}},
         ]
     return [
-        {"part": "components", "shards": 12, "budget": {"n_examples": 5000}},
-        {"part": "simulation", "shards": 4, "budget": {"n_examples": 1000}},
+        {"part": "components", "shards": 12, "budget": {"n_examples": 40000}},
+        {"part": "simulation", "shards": 4, "budget": {"n_examples": 8000}},
         {"part": "imports", "shards": 8, "budget": {}},
     ]
 
